@@ -131,9 +131,16 @@ def sortByK : List Child → List Child
 
 /-- `_ORMSelectCompileState._should_nest_selectable`: must the primary query become a
     subquery before the eager LEFT OUTER JOINs are attached? -/
-def shouldNest (eagerJoins multiRow hasLimit hasOffset distinct groupBy : Bool) : Bool :=
+def shouldNest (eagerJoins multiRow hasLimit hasOffset hasFetch distinct groupBy : Bool) : Bool :=
+  -- `fetch_clause` is in `_select_args` but is not consulted (finding F23)
+  let _ := hasFetch
   if !eagerJoins then false
   else (hasLimit && multiRow) || (hasOffset && multiRow) || distinct || groupBy
+
+/-- what the property needs: any row-limiting clause on the primary query has to be
+    applied before a row-multiplying eager join -/
+def nestNeeded (eagerJoins multiRow hasLimit hasOffset hasFetch distinct groupBy : Bool) : Bool :=
+  eagerJoins && (((hasLimit || hasOffset || hasFetch) && multiRow) || distinct || groupBy)
 
 /-- statements emitted for a one-level collection load of `n` parents -/
 def statementCount (strategy : String) (nparents : Nat) : Nat :=
